@@ -32,7 +32,16 @@ def main(tier, seed):
     base = vocab + raising + extra
     c = qtie.core(vocab)[:(8 if tier == "quick" else 12)] + extra[:6]
     d1 = qtie.depth1(c)
-    qs = base + d1
+    # noop() as an operand (documented as a base value for building filters in a loop): noop | a is always true, noop & a is a
+    atoms = extra[:3] + [v for v in vocab if v[0] == "S"][:5]
+    noops = []
+    for attr in ("tags", "fields", "time", "meas"):
+        nq = ("noop", attr)
+        noops.append(("not", nq))
+        for a in atoms:
+            noops += [("or", nq, a), ("or", a, nq), ("and", nq, a), ("and", a, nq), ("or", ("and", nq, a), a), ("and", ("or", nq, a), a)]
+        noops += [("or", nq, ("noop", "tags")), ("and", nq, ("noop", "fields"))]
+    qs = base + d1 + noops
     n_exh = len(qs)
     n_d2 = 150 if tier == "quick" else 700
     for _ in range(n_d2):
